@@ -4,6 +4,10 @@ use crate::ir::*;
 use crate::runner::*;
 use crate::tape::Tape;
 use chalk_ir::*;
+use chalk_integration::interner::ChalkIr;
+use chalk_solve::infer::InferenceTable;
+use chalk_ir::cast::Cast;
+use chalk_ir::fold::shift::Shift;
 use serde::{Deserialize, Serialize};
 use serde_json::{json, Value};
 
@@ -307,6 +311,61 @@ pub fn run_history(case: &UCase) -> (CaseOut, CaseOut) {
                     }
                 }
                 o14.bump("covariant_checked");
+            }
+        }
+    }
+    // C15 over higher-ranked types, which the mirror AST does not have: a `for<'a> fn(&'a X) -> Y` against a plain
+    // `fn(&'static X) -> Z` opens a universe inside relate without creating a variable. Only the history-free invariants are
+    // checked here (no reference unifier): a failing relate leaves the table — canonical state of all variables *and* the
+    // next universe / next variable it would hand out — as it was, in both argument orders and under both variances.
+    {
+        let h = hash_of(&format!("{:?}", case));
+        let wp = World::new(&case.vars, &case.lts);
+        let leaf = |k: u64| -> Ty<ChalkIr> {
+            match k % 5 {
+                0 => TyKind::Scalar(Scalar::Int(IntTy::I32)).intern(I),
+                1 => TyKind::Scalar(Scalar::Uint(UintTy::U32)).intern(I),
+                2 => TyKind::Str.intern(I),
+                3 => TyKind::Never.intern(I),
+                _ => wp.ty_vars.first().map(|v| v.0.clone()).unwrap_or_else(|| TyKind::Never.intern(I)),
+            }
+        };
+        let fnptr = |binders: usize, args: Vec<Ty<ChalkIr>>| -> Ty<ChalkIr> {
+            TyKind::Function(FnPointer { num_binders: binders, sig: FnSig { abi: chalk_integration::interner::ChalkFnAbi::Rust, safety: Safety::Safe, variadic: false }, substitution: FnSubst(Substitution::from_iter(I, args)) }).intern(I)
+        };
+        let observe = |t: &InferenceTable<ChalkIr>| -> String {
+            let all: Vec<GenericArg<ChalkIr>> = wp.ty_vars.iter().map(|v| v.0.clone().cast(I)).chain(wp.lt_vars.iter().map(|l| l.clone().cast(I))).collect();
+            let mut t2 = t.clone();
+            let c = t2.canonicalize(I, Substitution::from_iter(I, all)).quantified;
+            let next_universe = t2.new_universe();
+            let next_var = format!("{:?}", t2.new_variable(UniverseIndex::root()));
+            format!("{:?} | next universe {:?} | next variable {}", c, next_universe, next_var)
+        };
+        for probe in 0..2u32 {
+            let bits = h >> (probe * 12);
+            let (x, y, z) = (leaf(bits), leaf(bits >> 3), leaf(bits >> 6));
+            let bound = LifetimeData::BoundVar(BoundVar::new(DebruijnIndex::INNERMOST, 0)).intern(I);
+            let hr = fnptr(1, vec![TyKind::Ref(Mutability::Not, bound, x.clone().shifted_in(I)).intern(I), y.clone().shifted_in(I)]);
+            let plain = fnptr(0, vec![TyKind::Ref(Mutability::Not, LifetimeData::Static.intern(I), x.clone()).intern(I), z.clone()]);
+            for (a, b, dir) in [(&hr, &plain, "higher-ranked vs plain"), (&plain, &hr, "plain vs higher-ranked")] {
+                for variance in [Variance::Invariant, Variance::Covariant] {
+                    let before = observe(&wp.table);
+                    let mut t = wp.table.clone();
+                    match crate::drive::catch(|| t.relate(I, &db, &env, variance, a, b).is_ok()) {
+                        Ok(false) => {
+                            let after = observe(&t);
+                            o15.evals += 1;
+                            if after != before {
+                                o15.fail("state-changed-after-failure:higher-ranked", format!("relate({:?}, {}) of {:?} and {:?} fails but changes the table\nstate before: {}\nstate after:  {}", variance, dir, a, b, before, after));
+                            } else {
+                                o15.bump("higher_ranked_failing_relate_checked");
+                                o15.nontrivial.push(hash_of(&(format!("{:?}{:?}", a, b), dir, format!("{:?}", variance))));
+                            }
+                        }
+                        Ok(true) => o15.bump("higher_ranked_relate_succeeds"),
+                        Err(m) => o15.fail(format!("panic-in-relate:{}", m), format!("panic relating {:?} and {:?}: {}", a, b, m)),
+                    }
+                }
             }
         }
     }
